@@ -78,6 +78,7 @@ type TableOpts struct {
 	ForcePK     bool // at least one key column
 	ForceUnique bool // keys unique (duplicates removed by construction)
 	MaxBig      int  // max size class of special long cells: 0 none, 1 1KiB, 2 32KiB, 3 65535
+	PreferLarge bool // half of the tables have more than one block
 }
 
 var keyComponents = []string{"", "0", "00", "01", "1", "A", "a", "a\x00", "a ", "a\xff", "ab", "abc", "b", "\xff", "é", " ", "\"", ",", "a,b", "x\ny"}
@@ -160,6 +161,9 @@ func GenTable(t *rapid.T, o TableOpts, label string) Table {
 		if o.MaxRows > 40 && rapid.IntRange(0, 3).Draw(t, label+".large") == 0 {
 			n = rapid.IntRange(41, o.MaxRows).Draw(t, label+".nrowsL")
 		}
+	}
+	if o.PreferLarge && o.MaxRows > 256 && rapid.Bool().Draw(t, label+".preferLarge") {
+		n = rapid.IntRange(256, o.MaxRows).Draw(t, label+".nrowsPL")
 	}
 	// key range relative to n decides how many duplicates there are
 	keyRange := n*4 + 4
